@@ -25,6 +25,15 @@ void vrt_payload(const void* addr, size_t len, const char* name);
 // opt-in (default off): make every plain access to a vrt_payload range a scheduling point, so
 // other threads can interleave between two plain accesses (use-after-release windows)
 void vrt_payload_sched(int on);
+// opt-in (default off): plain accesses to vrt_payload ranges that also carry a vrt_name appear in
+// the trace as `<tid> pwr <loc> <size>` / `<tid> prd <loc> <size> <value>`; a value that points into
+// a named range is printed as `@<name>[+off]`, a small value in decimal, anything else as `?`
+void vrt_payload_trace(int on);
+// fallback name resolver consulted when no vrt_name range matches (locations created during the run)
+void vrt_set_resolver(bool (*fn)(const void* addr, char* out, size_t cap));
+// VRT_MEM=view (environment): loads may return stale values allowed by the release/acquire view
+// model (see vrt.cpp); number of stale reads served in the last section:
+uint64_t vrt_stale_reads();
 // harness-level event attributed to the calling thread (printf style)
 void vrt_event(const char* fmt, ...);
 // start / stop the controlled section (call from the main thread; all threads created inside
@@ -46,4 +55,17 @@ uint64_t vrt_races();
 // opt-in (default off): trace every controlled clock_gettime as `<tid> ev clock <ns>` and append
 // ` to=<ns>` (relative timeout) to the `fwait` line of a timed futex wait
 void vrt_trace_clock(int on);
+// opt-in (default off): trace every controlled sched_yield as `<tid> ev yield`
+void vrt_trace_yield(int on);
+// opt-in (default off): a sched_yield executed while no other thread is runnable advances the virtual
+// clock to the earliest pending deadline, so a yield-spin that waits for a usleep-spinning thread
+// makes progress instead of running into the step limit
+void vrt_yield_time(int on);
+// opt-in (default none): `fn(tid, ns)` is called at the end of every controlled clock_gettime, after the
+// value returned to the caller has been fixed; the hook may call usleep/nanosleep to stall the
+// calling thread in virtual time right after its clock read (pass nullptr to remove)
+void vrt_clock_hook(void (*fn)(int, uint64_t));
+// opt-in (default off): trace every controlled usleep / nanosleep as `<tid> sleep <ns>` (emitted before
+// the thread gives up the baton)
+void vrt_trace_sleep(int on);
 }
